@@ -671,9 +671,15 @@ func TestVerifC17Enc(t *testing.T) {
 	reps := verifutil.EnvInt("VERIF_REPS", 1)
 	var n int64
 	var mu sync.Mutex
+	sinks := []string{"buffer", "bytewise", "pipe", "afterfail"}
+	if verifutil.EnvInt("VERIF_CONC", 0) > 0 {
+		// the reference server renders raw responses of concurrent requests, the reference client raw requests
+		// of concurrent RPCs: what one call writes must not depend on the calls running beside it
+		sinks = []string{"concurrent"}
+	}
 	verifutil.ParallelFor(len(bodies), 16, func(i int) {
 		b := bodies[i]
-		for _, sink := range []string{"buffer", "bytewise", "pipe", "afterfail"} {
+		for _, sink := range sinks {
 			if only[i] != "" && only[i] != sink && !(sink == "afterfail" && only[i] == "buffer") {
 				continue
 			}
@@ -695,6 +701,38 @@ func TestVerifC17Enc(t *testing.T) {
 					var buf bytes.Buffer
 					werr = tab.encode(b, &buf)
 					got = buf.Bytes()
+				case "concurrent":
+					var first bytes.Buffer
+					werr = tab.encode(b, &first)
+					got = first.Bytes()
+					var wg sync.WaitGroup
+					var dmu sync.Mutex
+					var differs []byte
+					for g := 0; g < 8; g++ {
+						wg.Add(1)
+						go func(g int) {
+							defer wg.Done()
+							for k := 0; k < 40; k++ {
+								var buf bytes.Buffer
+								mine := b
+								if g%2 == 1 { // neighbours render other bodies at the same time
+									mine = bodies[(i+g+k)%len(bodies)]
+								}
+								_ = tab.encode(mine, &buf)
+								if g%2 == 0 && !bytes.Equal(buf.Bytes(), first.Bytes()) {
+									dmu.Lock()
+									if differs == nil {
+										differs = append([]byte{}, buf.Bytes()...)
+									}
+									dmu.Unlock()
+								}
+							}
+						}(g)
+					}
+					wg.Wait()
+					if differs != nil {
+						got = differs
+					}
 				case "bytewise":
 					w := &c17ByteWriter{}
 					werr = tab.encode(b, w)
@@ -725,8 +763,8 @@ func TestVerifC17Enc(t *testing.T) {
 					obs["err"] = werr.Error()
 				}
 				fl := sink
-				if sink == "afterfail" {
-					fl = "buffer" // the observation is a plain buffer write; the failing writes before it are history
+				if sink == "afterfail" || sink == "concurrent" {
+					fl = "buffer" // the observation is a plain buffer write; the failing / concurrent writes are history
 				}
 				out.Put(map[string]any{"kind": "enc", "id": i, "fl": fl, "body": raws[i], "obs": obs})
 				mu.Lock()
